@@ -178,7 +178,9 @@ DoEvent(S, e) ==
         ELSE IF "latewrite" \in Defects
              THEN IF kind = "select"
                   THEN [S EXCEPT !.T = [t EXCEPT !.bf = @ \cup {c}, !.blk[c] = Small]]   \* buffered; the writer entry is preened by the next select()
-                  ELSE [S EXCEPT !.T = [t EXCEPT !.wr = @ \cup {c}, !.tg = @ \cup {c}]]  \* register() raises before the buffer is touched
+                  ELSE IF c \in t.wr
+                       THEN [S EXCEPT !.T = [t EXCEPT !.bf = @ \cup {c}, !.blk[c] = Max(@, e[3])]]  \* "is writing" already: only buffered
+                       ELSE [S EXCEPT !.T = [t EXCEPT !.wr = @ \cup {c}, !.tg = @ \cup {c}]]  \* register() raises before the buffer is touched
              ELSE S
      ELSE
         IF S.sv[c] = "conn"
@@ -250,8 +252,12 @@ DoConn(S, c) ==
   IF S1.sv[c] # "conn" THEN S1
   ELSE IF krst[c]
        THEN DoError(IF c \in S1.T.wr THEN S1 ELSE DoRead(S1, c), c)
-       ELSE LET S2 == DoCloseQ(DoWrite(DoRead(S1, c), c), c) IN
-            IF S2.sv[c] # "conn" THEN S2 ELSE DoEof(S2, c)
+       ELSE LET \* Select fires _write before _read: a deferred close whose buffer drains in the
+                \* first _on_write closes the socket before its pending input is read
+                early == kind = "select" /\ c \in S1.T.cq /\ S1.T.blk[c] = Small
+                S2 == IF early THEN DoCloseQ(DoWrite(S1, c), c)
+                               ELSE DoCloseQ(DoWrite(DoRead(S1, c), c), c)
+            IN IF S2.sv[c] # "conn" THEN S2 ELSE DoEof(S2, c)
 
 RECURSIVE DoConns(_, _)
 DoConns(S, c) == IF c > NConn THEN S ELSE DoConns(DoConn(S, c), c + 1)
